@@ -78,6 +78,9 @@ func runC05(c *Ctx) *Replay {
 		x.Reader = readerKinds[(i+c.R.Intn(len(readerKinds)))%len(readerKinds)]
 		x.Writer = writerKinds[c.R.Intn(len(writerKinds))]
 		x.Again = c.R.Chance(1, 3)
+		if !x.Again && c.R.Chance(1, 3) {
+			x.Overlap = c.R.Range(1, 12)
+		}
 		x.Decoder = []string{"decode", "make"}[c.R.Intn(2)]
 		viol := execHistory(c.N, &x)
 		c.Count("evaluations", 1)
@@ -92,6 +95,9 @@ func runC05(c *Ctx) *Replay {
 	}
 	return nil
 }
+
+// overlapViol carries what went wrong for the second caller of an overlapping history.
+var overlapViol *Violation
 
 func execHistory(n *Node, sc *Scenario) *Violation {
 	sb := n.Build(sc.Prog, sc.Mask, false)
@@ -166,7 +172,30 @@ func execHistory(n *Node, sc *Scenario) *Violation {
 	}
 	link := simnet.NewLink(data, s, nil)
 	rw := wrapReader(sc.Reader, link)
+	if sc.Overlap > 0 && !sc.Again {
+		// a second caller: the same history from a stream of its own, decoded while the first
+		// caller is inside a Read (synchronous decoders can only be overtaken there). What
+		// the second caller gets is judged by running this scenario on its stream alone.
+		fired := false
+		link.Hook = func(call int) {
+			if fired || call < sc.Overlap {
+				return
+			}
+			fired = true
+			other := *sc
+			other.Overlap, other.Reader, other.Sched = 0, "plain", &simnet.Schedule{Name: "all"}
+			if v := execHistory(n, &other); v != nil && overlapViol == nil {
+				v.Signature += "|second-caller"
+				overlapViol = v
+			}
+			simrt.SetMapOrder(simrt.OrderCanonical, 0)
+		}
+		defer func() { overlapViol = nil }()
+	}
 	for i := range bounds {
+		if overlapViol != nil {
+			return overlapViol
+		}
 		typ := sc.Types[i]
 		t, _, err := n.typeOf(rb, typ)
 		if err != nil {
